@@ -112,7 +112,7 @@ def run(ctx):
     rng = ctx.rng
     quick = ctx.tier == "quick"
     ctx.rule = ("integer lattices from 6 streams (orthogonal, sheared up to 12, thin slabs, left-handed, general, near-singular) x all 8 pbc "
-                "masks x vector lists mixing zeros / exact lattice vectors / inside / far outside x exclude_self x radii from below the shortest "
+                "masks x vector lists mixing zeros / exact lattice vectors / inside / far outside x exclude_self (incl. non-reduced cells with zero + tiny vectors) x radii from below the shortest "
                 "lattice vector to several cells; implementation judged exactly (integer arithmetic) and compared with the Z model evaluated by vm_compute; "
                 "distinct = (stream, mask, kind, outcome signature)")
     ctx.trusted += ["hand model coq/model/Lattice.v of minimum_supcell/supcell_gridgen/minimum_periodic/all_periodic, tied by exact correspondence on integer inputs",
@@ -148,6 +148,25 @@ def run(ctx):
             half = any(lc.reduce_vec(L, pbc, v)[2] for v in vs)
             all_cases.append(dict(L=L, pbc=list(pbc), vs=[list(v) for v in vs], rho=rho2, stream=kind, boundary=bool(edge2 or half)))
             sup_cases.append(dict(L=L, pbc=list(pbc), rho=rho2, stream=kind, metric=(k % 2 == 0)))
+    # non-reduced cells whose shortest lattice vector (b - m a) lies outside the +-1 neighbour cells, asked for the self-image of a zero vector listed
+    # together with very short vectors (the search radius is then tiny but not zero)
+    for k in range(16 if quick else 200):
+        a_ = rng.randint(8, 16)
+        m_ = rng.choice([2, 3, -2])
+        L = [[a_, 0, 0], [m_ * a_ + rng.choice([-2, -1, 1, 2]), rng.choice([1, 2, 3]), 0], [rng.randint(-2, 2), rng.randint(-2, 2), rng.randint(6, 12)]]
+        if rng.random() < 0.3:
+            L[0], L[1] = L[1], L[0]
+        pbc = rng.choice([(True, True, True), (True, True, False), (True, True, True)])
+        vs = [(0, 0, 0)] + [tuple(rng.choice([-1, 0, 1]) for _ in range(3)) for _ in range(rng.randint(0, 2))]
+        if rng.random() < 0.3:
+            vs.append(lc.comb([rng.randint(-2, 2) for _ in range(3)], L))
+        rng.shuffle(vs)
+        red = [lc.reduce_vec(L, pbc, v)[0] for v in vs]
+        rho = max(max(lc.norm2(v) for v in red), min(lc.norm2(L[i]) for i in range(3) if pbc[i]))
+        b, edge = lc.bounds_exact(L, pbc, rho, 1)
+        if lc.grid_size(b) <= 30000:
+            half = any(lc.reduce_vec(L, pbc, v)[2] for v in vs)
+            min_cases.append(dict(L=L, pbc=list(pbc), vs=[list(v) for v in vs], excl=True, stream="nonreduced-self", boundary=bool(edge or half)))
     # corpus: witnesses of the defects found while reading (scaled to integers)
     min_cases.insert(0, dict(L=[[300, 0, 0], [0, 300, 0], [100, 0, 10]], pbc=[True] * 3, vs=[[0, 0, 16]], excl=False, stream="corpus-F03a", boundary=False))
     min_cases.insert(1, dict(L=[[300, 0, 0], [0, 300, 0], [100, 0, 10]], pbc=[True] * 3, vs=[[0, 0, 0]], excl=True, stream="corpus-F03b", boundary=False))
